@@ -8,6 +8,6 @@ while true; do
   line=$(sed -n "$((n+1))p" /tmp/seedqueue.txt)
   if [ -z "$line" ]; then sleep 15; continue; fi
   set -- $line
-  /verif/tools/seed_batch.sh "$2" "$1" >> /tmp/seedbatch.log 2>&1
+  $(dirname $0)/seed_batch.sh "$2" "$1" >> /tmp/seedbatch.log 2>&1
   echo "$line" >> /tmp/seedqueue.done
 done
